@@ -41,13 +41,22 @@ type Contract struct {
 	LoopDecr map[int]*Clause
 	Safe     bool
 	Modular  bool // never inline at call sites even if it has no ensures
+	NoBody   bool
 	Witness  map[string]string
 	Unordered map[int]string // map-range ordinal -> the only entry point from which the function may be reached
+	UsesOnly []UsesOnly
 	Bound    bool
 	Terminates bool
 	Assigns  []string
 	Line     int
 	File     string
+}
+
+type UsesOnly struct {
+	Value   string
+	Allowed []string
+	Tags    []string
+	Text    string
 }
 
 type SpecFunc struct {
@@ -58,7 +67,7 @@ type SpecFunc struct {
 	Text   string
 }
 
-var kwRe = regexp.MustCompile(`^(func|spec|requires|ensures|decreases|loop|safe|modular|terminates|witness|witnessgo|unordered|end)\b`)
+var kwRe = regexp.MustCompile(`^(func|spec|requires|ensures|decreases|loop|safe|modular|terminates|witness|witnessgo|unordered|usesonly|nobody|end)\b`)
 
 func (e *Engine) loadContracts() error {
 	e.contracts = map[string]*Contract{}
@@ -207,6 +216,12 @@ func (e *Engine) parseContractFile(file, pkgPath, data string) error {
 			} else {
 				return fmt.Errorf("%s:%d: bad loop clause %q", file, l.line, kind)
 			}
+		case "usesonly":
+			// usesonly[tags] <param | result-of:<callee>> <allowed callee>[,<allowed callee>...]
+			// def-use frame obligation: the value flows nowhere else (len() is always allowed)
+			if len(fields) >= 3 {
+				cur.UsesOnly = append(cur.UsesOnly, UsesOnly{Value: fields[1], Allowed: strings.Split(fields[2], ","), Tags: tags, Text: rest})
+			}
 		case "witnessgo":
 			// witnessgo <obligation-suffix> <Go statements>: body of an in-package test that sets
 			// `violated = true` when the real code shows the violation (a replay aid, never evidence)
@@ -227,6 +242,8 @@ func (e *Engine) parseContractFile(file, pkgPath, data string) error {
 			cur.Safe = true
 		case "modular":
 			cur.Modular = true
+		case "nobody":
+			cur.NoBody = true // only the syntactic (def-use) obligations; the body is not executed
 		case "terminates":
 			cur.Terminates = true
 		case "witness":
